@@ -133,7 +133,8 @@ def validate(execs, nproc):
                 for k, v in rep["stats"].items():
                     stats[k] = stats.get(k, 0) + v
     finally:
-        shutil.rmtree(tdir, ignore_errors=True)
+        if not os.environ.get("VERIF_C16_KEEP_TRACES"):
+            shutil.rmtree(tdir, ignore_errors=True)
     return verdicts, obs, stats, ress
 
 
@@ -262,7 +263,7 @@ def part_builder(chk, tier, binary):
         cases += tlc_cases(chk, "MC_StatsSeq", "CONSTANTS\n TypeSpecs = %s\n MaxCalls = 4\n K = 10\n%s" % (tla_set(specs + [7300]), GEN_TAIL),
                            "builder cases (simulated)", simulate=3, depth=5)
     else:
-        cases += tlc_cases(chk, "MC_StatsSeq", "CONSTANTS\n TypeSpecs = %s\n MaxCalls = 2\n K = 6\n%s" % (tla_set(specs), GEN_TAIL), "builder cases")
+        cases += tlc_cases(chk, "MC_StatsSeq", "CONSTANTS\n TypeSpecs = %s\n MaxCalls = 2\n K = 8\n%s" % (tla_set(specs), GEN_TAIL), "builder cases")
         cases += tlc_cases(chk, "MC_StatsSeq", "CONSTANTS\n TypeSpecs = %s\n MaxCalls = 1\n K = 10\n%s" % (tla_set(specs + [7300]), GEN_TAIL), "builder cases")
         cases += tlc_cases(chk, "MC_StatsSeq", "CONSTANTS\n TypeSpecs = %s\n MaxCalls = 5\n K = 10\n%s" % (tla_set(specs + [7300]), GEN_TAIL),
                            "builder cases (simulated)", simulate=40, depth=6)
